@@ -2,8 +2,8 @@
    json_decode modes) and the classes of values / trees the theorems quantify over.  The encoder has no
    separate reference: its faithfulness is stated as "the reference reader reads its output back as
    the value" (Properties.json_encode_denotes).  Shared with the model, hence not independent:
-   utf8_valid (the RFC 3629 table), dedupe (a repeated key keeps its first place and last value),
-   nesting, int64_ok, f_finite.  No proofs in this file. *)
+   utf8_valid (the RFC 3629 table), nesting, int64_ok, f_finite (the treatment of repeated keys is NOT
+   shared: sp_dedupe below vs the model's insertion loop).  No proofs in this file. *)
 From Coq Require Import List NArith ZArith Bool.
 From V.C14 Require Import JsonModel.
 Import ListNotations.
@@ -20,6 +20,18 @@ Fixpoint encodable (v : pval) : bool :=
   | _ => true
   end.
 
+(* an object text with a repeated key denotes the object in which that key stands where it first
+   appeared and carries the value of its LAST appearance; later appearances are dropped.
+   (Written independently of the model's insertion loop; JsonProofs.sp_dedupe_eq relates the two.) *)
+Definition last_or {A} (k : bytes) (r : list (bytes * A)) (v : A) : A :=
+  fold_left (fun cur kv => if bytes_eqb (fst kv) k then snd kv else cur) r v.
+Fixpoint sp_dedupe_f {A} (fuel : nat) (l : list (bytes * A)) : list (bytes * A) :=
+  match fuel, l with
+  | S f, (k, v) :: r => (k, last_or k r v) :: sp_dedupe_f f (filter (fun kv => negb (bytes_eqb (fst kv) k)) r)
+  | _, _ => []
+  end.
+Definition sp_dedupe {A} (l : list (bytes * A)) : list (bytes * A) := sp_dedupe_f (length l) l.
+
 (* a PHP array with no entries is the empty list, whatever it was decoded from *)
 Definition mk_arr (kvs : list (bytes * pval)) : pval :=
   match kvs with [] => PList [] | _ => PArr kvs end.
@@ -35,7 +47,7 @@ Fixpoint spec_of_json (assoc : bool) (t : jtree) : pval :=
   | JNum true z b => if int64_ok z then PInt z else PFloat b
   | JNum false _ b => PFloat b
   | JArr l => PList (map (spec_of_json assoc) l)
-  | JObj l => let kvs := dedupe (map (fun kv => (fst kv, spec_of_json assoc (snd kv))) l) in
+  | JObj l => let kvs := sp_dedupe (map (fun kv => (fst kv, spec_of_json assoc (snd kv))) l) in
               if assoc then mk_arr kvs else PMap kvs
   end.
 
